@@ -55,8 +55,8 @@ enum B<Ef> {
 
 fn build_chain<Ef: LabEffect>(chain: &Chain, tag: u32) -> Command<Ef, Event> {
     let mut b: B<Ef> = match chain.head {
-        Head::Request(site) => B::R(rbox(Command::request_from_shell(op(site, 0, KIND_ONCE)))),
-        Head::Stream(site) => B::S(sbox(Command::stream_from_shell(op(site, 0, KIND_MANY)))),
+        Head::Request(site) => B::R(rbox(Command::request_from_shell(op(site, 0, KIND_ONCE)).map(|v: Val| v.0))),
+        Head::Stream(site) => B::S(sbox(Command::stream_from_shell(op(site, 0, KIND_MANY)).map(|v: Val| v.0))),
     };
     for stage in &chain.stages {
         b = match (b, stage) {
@@ -67,13 +67,13 @@ fn build_chain<Ef: LabEffect>(chain: &Chain, tag: u32) -> Command<Ef, Event> {
             (B::R(r), Stage::ThenRequest(site)) => {
                 let site = *site;
                 B::R(rbox(r.then_request(move |v| {
-                    Command::request_from_shell(op(site, v, KIND_ONCE))
+                    Command::request_from_shell(op(site, v, KIND_ONCE)).map(|v: Val| v.0)
                 })))
             }
             (B::R(r), Stage::ThenStream(site)) => {
                 let site = *site;
                 B::S(sbox(r.then_stream(move |v| {
-                    Command::stream_from_shell(op(site, v, KIND_MANY))
+                    Command::stream_from_shell(op(site, v, KIND_MANY)).map(|v: Val| v.0)
                 })))
             }
             (B::S(s), Stage::Map(k)) => {
@@ -83,13 +83,13 @@ fn build_chain<Ef: LabEffect>(chain: &Chain, tag: u32) -> Command<Ef, Event> {
             (B::S(s), Stage::ThenRequest(site)) => {
                 let site = *site;
                 B::S(sbox(s.then_request(move |v| {
-                    Command::request_from_shell(op(site, v, KIND_ONCE))
+                    Command::request_from_shell(op(site, v, KIND_ONCE)).map(|v: Val| v.0)
                 })))
             }
             (B::S(s), Stage::ThenStream(site)) => {
                 let site = *site;
                 B::S(sbox(s.then_stream(move |v| {
-                    Command::stream_from_shell(op(site, v, KIND_MANY))
+                    Command::stream_from_shell(op(site, v, KIND_MANY)).map(|v: Val| v.0)
                 })))
             }
         };
@@ -218,15 +218,15 @@ pub struct Handle {
 impl<Ef: LabEffect> Ctx<Ef> {
     fn request(&self, op: Op) -> BoxFuture<'static, u64> {
         match self {
-            Ctx::Cmd(c) => c.request_from_shell(op).boxed(),
-            Ctx::Legacy { op: c, .. } => c.request_from_shell(op).boxed(),
+            Ctx::Cmd(c) => c.request_from_shell(op).map(|v| v.0).boxed(),
+            Ctx::Legacy { op: c, .. } => c.request_from_shell(op).map(|v| v.0).boxed(),
         }
     }
 
     fn stream(&self, op: Op) -> BoxStream<'static, u64> {
         match self {
-            Ctx::Cmd(c) => c.stream_from_shell(op).boxed(),
-            Ctx::Legacy { op: c, .. } => c.stream_from_shell(op).boxed(),
+            Ctx::Cmd(c) => c.stream_from_shell(op).map(|v| v.0).boxed(),
+            Ctx::Legacy { op: c, .. } => c.stream_from_shell(op).map(|v| v.0).boxed(),
         }
     }
 
